@@ -148,8 +148,32 @@ type c14Case struct {
 	DocB J      `json:"doc_b,omitempty"`
 }
 
-// c14Check compares one ordered pair with its swap. Returns outcome and an optional violation.
+// c14Reps: every pair is compared this many times; diff ranges over maps, so a direction error that
+// depends on iteration order must show in one of the repetitions.
+var c14Reps = 6
+
+// c14Check compares one ordered pair with its swap c14Reps times. A pair whose verdict changes between
+// repetitions is reported as unstable.
 func c14Check(cs c14Case) (string, []evid.Violation) {
+	out0, vs0 := c14CheckOnce(cs)
+	sig := func(vs []evid.Violation) string {
+		var l []string
+		for _, v := range vs {
+			l = append(l, v.Signature)
+		}
+		sort.Strings(l)
+		return strings.Join(l, " || ")
+	}
+	for i := 1; i < c14Reps; i++ {
+		out, vs := c14CheckOnce(cs)
+		if out != out0 || sig(vs) != sig(vs0) {
+			return "unstable", []evid.Violation{{Signature: "unstable-report", What: fmt.Sprintf("comparing (%s,%s) and its swap repeatedly gives different verdicts (%s [%s] vs %s [%s]): the reported direction depends on map iteration order", cs.A, cs.B, out0, sig(vs0), out, sig(vs)), Case: cs}}
+		}
+	}
+	return out0, vs0
+}
+
+func c14CheckOnce(cs c14Case) (string, []evid.Violation) {
 	ab := safeCompare(cs.DocA, cs.DocB)
 	ba := safeCompare(cs.DocB, cs.DocA)
 	if ab.Panic != "" || ba.Panic != "" || ab.Err != nil || ba.Err != nil {
